@@ -24,6 +24,9 @@ mod c08;
 mod c09;
 mod c10;
 mod c11;
+mod c12;
+mod c13;
+mod c14;
 mod c15;
 mod c17;
 mod c18;
@@ -122,6 +125,9 @@ fn main() {
         "C09" => c09::run(&ctx),
         "C10" => c10::run(&ctx),
         "C11" => c11::run(&ctx),
+        "C12" => c12::run(&ctx),
+        "C13" => c13::run(&ctx),
+        "C14" => c14::run(&ctx),
         "C15" => c15::run(&ctx),
         "C17" => c17::run(&ctx),
         "C18" => c18::run(&ctx),
